@@ -52,7 +52,9 @@ fn show(d: &Option<Directive>) -> String {
 }
 
 pub fn check_line(line: &str) -> Check {
-    let got = Directive::detect_from(line);
+    let Ok(got) = std::panic::catch_unwind(|| Directive::detect_from(line)) else {
+        return viol("C15 panic", format!("line {line:?}: detect_from panicked"));
+    };
     let want = grammar::detect(line);
     let ok = match (&got, &want) {
         (None, None) => true,
@@ -75,7 +77,7 @@ pub fn check_line(line: &str) -> Check {
 
 /// returns Ok(true) if the pair was compared, Ok(false) if the README is ambiguous for it
 pub fn check_pair(dline: &str, cline: &str) -> Result<bool, (String, String)> {
-    let Some(mut d) = Directive::detect_from(dline) else {
+    let Ok(Some(mut d)) = std::panic::catch_unwind(|| Directive::detect_from(dline)) else {
         return Ok(false);
     };
     let Some(m) = grammar::detect(dline) else {
@@ -83,7 +85,12 @@ pub fn check_pair(dline: &str, cline: &str) -> Result<bool, (String, String)> {
     };
     let want = grammar::cont(&m, cline);
     let before = d.args.len();
-    let r = d.add_line(cline);
+    let Ok((d, r)) = std::panic::catch_unwind(move || {
+        let r = d.add_line(cline);
+        (d, r)
+    }) else {
+        return Err((format!("directive {dline:?} + line {cline:?}: add_line panicked"), "C15 panic".into()));
+    };
     match (want, r) {
         (Cont::Ambiguous, _) => Ok(false),
         (Cont::End, Err(())) => {
